@@ -557,7 +557,10 @@ where
     }
     if fired2 > 0 {
         chk!(r2 == OpRes::Error, "c05: second of two faults: error, never a success");
-        let lost_ack = after && h.w().mon.log[(f2 - 1) as usize] == K_COMMIT;
+        // which of the two planned faults hit this request (the first one may, if the first
+        // request made fewer storage calls than its index)
+        let hit = h.w().mon.last_fault_call;
+        let lost_ack = after && h.w().mon.log[(hit - 1) as usize] == K_COMMIT;
         if !lost_ack {
             chk!(post == mid, "c05: second of two faults: state exactly as before that request");
         } else {
